@@ -19,6 +19,8 @@ class FakeAsyncTransport:
         self.closed = False
         self.lost_reported = False
         self.writes = []  # (virtual time, bytes, closed flag at write time)
+        self.t_made = loop.time()
+        self.t_data = []  # virtual times at which the peer's data reached the protocol
         self.fail_next_write = None
         if kind == "serial":
             self.serial = self
